@@ -96,7 +96,8 @@ def oracle(cases, mlines, ilines):
 
 def corpus_cases():
     """every operation (the three time setters included) on every kind of target, through every kind of altroot"""
-    cases = hist.matrix_cases("c07", ["alt_mem", "alt_phys", "alt_alt", "alt_ovl"])
+    cases = hist.matrix_cases("c07", ["alt_mem", "alt_phys", "alt_alt", "alt_ovl"]) + \
+        hist.dotted_name_cases("c07", ["alt_mem", "alt_phys", "alt_alt", "alt_ovl", "alt_root"])
     for c in cases:
         c.first_watch = {}
     return cases
